@@ -87,10 +87,17 @@ type ContractSet struct {
 	Lemmas []*Lemma
 	Errors []string
 	Trust  []string // trusted / assumed items for the evidence scan
+	LockLevels map[string]int // Held.<Struct>.<field> -> level
+	Guarded    map[string]guardDecl // H.<Struct>.<field> -> guarding lock
+}
+
+type guardDecl struct {
+	LockField string // field name of the same struct holding the mutex
+	ReadOK    bool   // shared mode suffices for reads
 }
 
 func NewContractSet() *ContractSet {
-	return &ContractSet{Funcs: map[string]*Contract{}, Specs: map[string]*SpecFn{}}
+	return &ContractSet{Funcs: map[string]*Contract{}, Specs: map[string]*SpecFn{}, LockLevels: map[string]int{}, Guarded: map[string]guardDecl{}}
 }
 
 func (cs *ContractSet) errf(file string, line int, f string, a ...any) {
@@ -98,7 +105,7 @@ func (cs *ContractSet) errf(file string, line int, f string, a ...any) {
 }
 
 // ParseContractText parses the "//@" lines of one file. pkgPath is "" for extern files.
-func (cs *ContractSet) ParseContractText(file, pkgPath, text string) {
+func (cs *ContractSet) ParseContractText(file, pkgPath, pkgName, text string) {
 	type rawLine struct {
 		s    string
 		line int
@@ -271,6 +278,26 @@ func (cs *ContractSet) ParseContractText(file, pkgPath, text string) {
 				}
 				ls.Invariants = append(ls.Invariants, c)
 			}
+		case "locklevel":
+			f := strings.Fields(rest)
+			if len(f) != 2 {
+				cs.errf(file, rl.line, "locklevel Struct.field N")
+				continue
+			}
+			n, err := strconv.Atoi(f[1])
+			if err != nil {
+				cs.errf(file, rl.line, "locklevel needs a number")
+				continue
+			}
+			cs.LockLevels[lockKeyOfDecl(pkgName+"."+f[0])] = n
+		case "guarded":
+			// guarded Struct.field by lockfield [read]
+			f := strings.Fields(rest)
+			if len(f) < 3 || f[1] != "by" {
+				cs.errf(file, rl.line, "guarded Struct.field by lockfield [read]")
+				continue
+			}
+			cs.Guarded["H."+pkgName+"."+f[0]] = guardDecl{LockField: f[2], ReadOK: len(f) > 3 && f[3] == "read"}
 		case "timeout":
 			n, _ := strconv.Atoi(rest)
 			if cur != nil {
@@ -445,6 +472,6 @@ func (cs *ContractSet) LoadExternSpecs(dir string) {
 				sb.WriteString(l + "\n")
 			}
 		}
-		cs.ParseContractText(f, "", sb.String())
+		cs.ParseContractText(f, "", "", sb.String())
 	}
 }
